@@ -220,6 +220,11 @@ func (c *Ctx) index() {
 	}
 	c.computeAliases()
 	c.computeInfeasible()
+	if os.Getenv("MQTTCHECK_DEBUG_INFEAS") != "" {
+		for b, k := range infeasibleEdges {
+			fmt.Fprintf(os.Stderr, "infeasible: %s block %d (%s) edge %d\n", b.Parent().Name(), b.Index, b.Comment, k-1)
+		}
+	}
 }
 
 // addrRoot follows an address expression to the cell it denotes when that is a captured variable:
